@@ -28,13 +28,17 @@ class RScalar (R : Type) extends Add R, Sub R, Mul R, Div R, Neg R where
 /-- Kahan's `log1p`: accurate to a few ulp where `log (1+x)` alone loses everything -/
 def floatLog1p (x : Float) : Float :=
   let u := 1.0 + x
-  if u == 1.0 then x else if u.isInf then u else Float.log u * x / (u - 1.0)
+  if u == 1.0 then x else if u.isInf then u
+  else if x > 1e16 then Float.log u           -- `u - 1 = x` exactly; avoids overflow of `log u * x`
+  else Float.log u * x / (u - 1.0)
 
 /-- Kahan's `expm1` -/
 def floatExpm1 (x : Float) : Float :=
   let u := Float.exp x
   if u == 1.0 then x
   else if u.isInf then u
+  else if x > 40.0 then u - 1.0                -- `e^x - 1` rounds to `e^x`; Kahan's product `um1 * x`
+                                               -- would overflow for 703 < x < 709.78 where libm does not
   else
     let um1 := u - 1.0
     if um1 == -1.0 then -1.0 else um1 * x / Float.log u
